@@ -71,6 +71,24 @@ def Instr.projOk (i : Instr) : Bool := i.getQubits == i.qubits
 
 def qubitsOf (is : List Instr) : List Qubit := is.flatMap Instr.getQubits
 
+/-! ### vocabulary for specifications about keyed containers -/
+
+def keys (l : List Instr) : List String := l.map (·.key)
+
+/-- first element with the given key -/
+def lookup (l : List Instr) (k : String) : Option Instr := l.find? (fun x => x.key = k)
+
+/-- last element with the given key -/
+def lookupLast (l : List Instr) (k : String) : Option Instr := l.reverse.find? (fun x => x.key = k)
+
+/-- the distinct elements of a list in the order of their FIRST occurrence -/
+def firstOcc : List String → List String
+  | [] => []
+  | k :: ks => k :: (firstOcc ks).filter (fun x => x ≠ k)
+
+/-- the instructions of one kind, in order -/
+def ofKind (k : Kind) (is : List Instr) : List Instr := is.filter (fun x => x.kind = k)
+
 /-- `IndexMap::insert(key, value)` and `CalibrationSet::replace(value)`: replace the first element
 with an equal key in place, else append. -/
 def upsert : List Instr → Instr → List Instr
@@ -225,6 +243,9 @@ def vecEq (a b : List Instr) : Bool := a.map (·.pid) == b.map (·.pid)
 def subset (a b : List Qubit) : Bool := a.all fun q => b.contains q
 /-- `HashSet: PartialEq` -/
 def setEq (a b : List Qubit) : Bool := subset a b && subset b a
+
+/-- the cache equals, as a set, the qubits of the listing (Bool form of the C10 invariant) -/
+def invB (p : Program) : Bool := setEq p.used (qubitsOf (toInstructions p))
 
 def progEq (p q : Program) : Bool :=
   vecEq p.cals q.cals && vecEq p.mcals q.mcals && mapEq p.externs q.externs &&
